@@ -26,8 +26,11 @@ EVID_DIR = os.environ.get('VERIF_EVID_DIR') or os.path.join(ROOT, 'evidence')
 KNOWN_FILE = os.path.join(ROOT, 'known_findings.json')
 
 
-class RunTimeout(Exception):
-    pass
+class RunTimeout(BaseException):
+    """Raised by the per-run alarm.  Not an Exception: harness and library
+    code that catches Exception (to classify a raising call) must not swallow
+    it - a swallowed alarm once turned a slow run on a loaded machine into a
+    spurious "not reproducible" verdict."""
 
 
 def _alarm(signum, frame):
@@ -58,7 +61,7 @@ def _worker_chunk(args):
     for i in indices:
         run_seed = rng.derive(base_seed, prop, i)
         t0 = time.time()
-        signal.setitimer(signal.ITIMER_REAL, cfg.get('run_timeout', 120))
+        signal.setitimer(signal.ITIMER_REAL, cfg.get('run_timeout', 300))
         try:
             res = eng.run_one(prop, run_seed, i, cfg)
         except RunTimeout:
@@ -124,7 +127,7 @@ def run_batch(engine_name, prop, base_seed, cfg, nruns, workers,
         results.sort(key=lambda r: r['run'])
         return results, truncated
     ctx = mp.get_context('fork')
-    hard = cfg.get('run_timeout', 120) * 1.5 + 30
+    hard = cfg.get('run_timeout', 300) * 1.5 + 30
     procs = {}      # conn -> dict(proc, task, current, started)
 
     def spawn():
@@ -366,8 +369,8 @@ def check_main(engine_name, prop, tier, base_seed, cfg, nruns, workers,
             if ok:
                 r = cand
                 break
-            try:
-                os.unlink(path)
+            try:        # kept for diagnosis, out of the way of real replays
+                os.replace(path, path[:-5] + '.unreproduced')
             except OSError:
                 pass
         if not ok:
